@@ -60,7 +60,16 @@ def nosp(s, bad):
 
 
 def special_doc(rng):
-    sp = lambda: special(rng)
+    used = []
+
+    def sp():
+        # now and then the SAME string again in another syntactic role of the same document (code span then text, text then
+        # URL, ...): a renderer that remembers how it treated a string once must not reuse that treatment elsewhere
+        if used and rng.random() < 0.3:
+            return rng.choice(used)
+        x = special(rng)
+        used.append(x)
+        return x
     atoms = [
         sp,
         lambda: '*%s*' % sp(), lambda: '**%s**' % sp(), lambda: '~~%s~~' % nosp(sp(), '~'),
@@ -155,7 +164,40 @@ def check_witness(w):
     problem = latexcheck.check(out)
     if problem:
         return True, '%s; input %r output %r' % (problem, text, out[:400])
+    # second pass WITHOUT touching the tree: the placeholders above make every verbatim content unique, which hides a renderer
+    # that treats a text like an identical string it met before as code; here the verbatim regions are cut out of the OUTPUT
+    if w.get('edit_seed') is None:
+        try:
+            doc2 = impl.parse_only('LaTeXRenderer', {}, text)
+            toks = list(walk(doc2))
+            codes = [t.children[0].content for t in toks if type(t).__name__ in ('CodeFence', 'BlockCode')]
+            if (not any(type(t).__name__ == 'Math' for t in toks) and not any('\\end{lstlisting}' in c for c in codes)):
+                out2 = impl.render_tree('LaTeXRenderer', {}, doc2)
+                problem = latexcheck.check(strip_verbatim(out2))
+                if problem:
+                    return True, '%s (verbatim regions cut out of the output); input %r output %r' % (problem, text, out2[:400])
+        except Exception:
+            pass
     return False, 'ok'
+
+
+VERB = __import__('re').compile(r'\\verb(.)(.*?)\1', __import__('re').S)
+LST = __import__('re').compile(r'(\\begin\{lstlisting\}(?:\[[^\]\n]*\])?\n)(.*?)(\\end\{lstlisting\})', __import__('re').S)
+
+
+def strip_verbatim(out):
+    """the output with every \\verb body and every lstlisting body replaced by an opaque placeholder (the \\verb delimiter is
+    chosen by the renderer so that it does not occur in the body)"""
+    k = [0]
+
+    def v(m):
+        k[0] += 1
+        return '\\verb%s\x00V%d\x00%s' % (m.group(1), k[0], m.group(1))
+
+    def l(m):
+        k[0] += 1
+        return m.group(1) + '\x00L%d\x00\n' % k[0] + m.group(3)
+    return VERB.sub(v, LST.sub(l, out))
 
 
 def matches_known(v, finding):
